@@ -17,7 +17,7 @@ CHECKS = {
          "As C01/C02 for the binary trees, including symbols wider than 32/64 bits for WT, single-symbol and empty inputs, and select on symbols above max(S).",
          "the model; the hook as in C02", "3/C03"),
  "C05": ("proptest differential testing of RSQVector256/512 against a quaternary model, all symbols 0..=255",
-         "get/rank/select/occs/occs_smaller on generated quaternary sequences (explicit, weighted, runs, periodic, rare symbol, symbol absent from leading superblocks; lengths around 128..4096 multiples and the 8192-occurrence sampling period) compared with the model; every symbol 4..=255 must be rejected.",
+         "get/rank/select/occs/occs_smaller on generated quaternary sequences (explicit, weighted, runs, periodic, rare symbol, symbol absent from leading superblocks; lengths around 128..4096 multiples and the 8192-occurrence sampling period) compared with the model; every symbol 4..=255 must be rejected; enumerated 71.6 M-symbol vectors in which consecutive select samples of one symbol are 4 .. 264 superblocks apart, select asked around every sample.",
          "the model; generated lengths <= 1 000 000 quick / 8 000 000 thorough, plus enumerated periodic inputs of 2^27 + 70 001 and 2^28 + 70 001 symbols checked against closed-form answers", "3/C05"),
  "C06": ("proptest differential testing of RSNarrow and RSWide against a bit model",
          "get/rank1/rank0/select1/select0/totals on generated bit vectors (all densities, runs, all-ones blocks, counts of ones/zeros crossing multiples of 1024 and 8192 by -1/0/+1) compared with the model in five builds (optimised, debug assertions + overflow checks, crate feature prefetch off, AddressSanitizer, target-cpu=native); enumerated 5 Mbit very sparse / very dense vectors; bit vectors built from bools, pushes, typed position lists (also with duplicates), with_zeros + set, and from iterators with inexact size hints.",
@@ -86,6 +86,6 @@ m = {"version": 1, "setup_cmd": "./check --setup",
                   "kind_free_text": "cargo-fuzz / libFuzzer targets (ASan, with and without debug assertions) that decode bytes into the properties' own cases and run the same oracles; thorough tier only"}],
      "checks": [entry(p) for p in ids if p in CHECKS],
      "not_applicable": [{"property_id": p, "reason": "check under construction in this session (see DESIGN.md section 3); not yet claimed"} for p in ids if p not in CHECKS],
-     "notes": "Exit codes: 0 held, 1 VIOLATION line printed, 2 inconclusive (build failure, watchdog, or a panic inside the harness itself). Known findings: /verif/known_findings.json (KF-1 under C08, KF-2 under C02 and C03). Seeded changes used to validate the checks: /verif/seeded (76, see DESIGN.md section 10). Thorough tiers add cargo-fuzz campaigns (ASan) for C01-C10 and C12 and huge-input probes for C06, C07, C08, C17."}
+     "notes": "Exit codes: 0 held, 1 VIOLATION line printed, 2 inconclusive (build failure, watchdog, or a panic inside the harness itself). Known findings: /verif/known_findings.json (KF-1 under C08, KF-2 under C02 and C03). Seeded changes used to validate the checks: /verif/seeded (213, see DESIGN.md section 10). Thorough tiers add cargo-fuzz campaigns (ASan) for C01-C10 and C12 and huge-input probes for C06, C07, C08, C17."}
 json.dump(m, open(os.path.join(V, "MANIFEST.json"), "w"), indent=1)
 print("checks:", [c["property_id"] for c in m["checks"]])
